@@ -96,10 +96,24 @@ theorem fact_outbound_inventory :
     builders that do not validate themselves are the shared helpers and the credential request (stopped by the HTTP client) -/
 theorem fact_iam_call_sites :
     Facts.C20.iamURLCheckers = ["OAuthAuthorizationServerMetadata", "ClientMetadata", "OpenIdCredentialIssuerMetadata", "OpenIDConfiguration",
-      "PostError", "PostAuthorizationResponse", "PresentationDefinition", "RequestObjectByGet", "RequestObjectByPost", "AccessToken",
+      "VerifiableCredentials", "PostError", "PostAuthorizationResponse", "PresentationDefinition", "RequestObjectByGet", "RequestObjectByPost", "AccessToken",
       "RequestRFC021AccessToken"] ∧
     Facts.C20.iamRequestBuilders.filter (fun f => !Facts.C20.iamURLCheckers.contains f) =
-      ["VerifiableCredentials", "postFormExpectRedirect", "doGet"] := by decide
+      ["postFormExpectRedirect", "doGet"] := by decide
+
+/-- inventory of the IAM client's exported methods: every OpenID4VP-client method that takes an endpoint validates it
+    UNCONDITIONALLY (top-level statement before any branch) or hands it to an inner method that does; the inner methods
+    without a check of their own are only reached through checking outer methods -/
+theorem fact_iam_method_inventory : Facts.C20.iamMethodInventory =
+    ["http.OAuthAuthorizationServerMetadata:unconditional", "http.ClientMetadata:unconditional", "http.PresentationDefinition:none",
+     "http.RequestObjectByGet:none", "http.RequestObjectByPost:none", "http.AccessToken:none", "http.PostError:none",
+     "http.PostAuthorizationResponse:none", "http.OpenIdCredentialIssuerMetadata:unconditional", "http.OpenIDConfiguration:unconditional",
+     "http.KeyProvider:none", "http.VerifiableCredentials:unconditional",
+     "vp.ClientMetadata:delegates:ClientMetadata", "vp.PostError:unconditional", "vp.PostAuthorizationResponse:unconditional",
+     "vp.PresentationDefinition:unconditional", "vp.AuthorizationServerMetadata:delegates:OAuthAuthorizationServerMetadata",
+     "vp.OpenIDConfiguration:delegates:OpenIDConfiguration", "vp.RequestObjectByGet:unconditional", "vp.RequestObjectByPost:unconditional",
+     "vp.AccessToken:unconditional", "vp.RequestRFC021AccessToken:unconditional",
+     "vp.OpenIdCredentialIssuerMetadata:delegates:OpenIdCredentialIssuerMetadata", "vp.VerifiableCredentials:delegates:VerifiableCredentials"] := by decide
 
 /-- the same secret-flag rule guards both configuration loaders (server and CLI client); the dummy means refuses every
     operation in strict mode; IRMA's production mode is the node's strict mode -/
@@ -293,6 +307,17 @@ theorem iam_endpoints_strict (c : Config) (hs : c.strict = true) (endpoint : Byt
     have h := fact_iam_strictmode.1
     simp [iamStrict, hs, h]
   simp [iamEndpoint, this, he]
+
+/-- every outbound call of the IAM client on a strict node: an endpoint that is not https, names an IP address or a
+    reserved host is refused as an endpoint, whatever the method (checked per the inventory), before any request -/
+theorem iam_calls_strict (c : Config) (hs : c.strict = true) (needsSubject : Bool) (endpoint : Bytes) (u : URL)
+    (hp : parseURL endpoint = .ok u)
+    (hbad : u.scheme ≠ sHttpsB ∨ isIP (hostname u.host) = true ∨ isReserved tlds l2s (hostname u.host) = .ok true) :
+    iamCall tlds l2s (Facts.C20.authStrictModeAssignments == ["config.Strictmode"]) c true needsSubject endpoint = "refused-endpoint" := by
+  have h := iam_endpoints_strict c hs endpoint u hp hbad
+  unfold iamCall
+  simp only [Bool.and_true, h]
+  simp
 
 /-- without the assignment (the code before the repair) the check ran lenient: an https://127.0.0.1 endpoint was contacted
     by a strict node, and a plain-http endpoint was stopped only by the HTTP client -/
